@@ -17,6 +17,7 @@ import (
 	"time"
 
 	"github.com/brutella/hc/accessory"
+	"github.com/brutella/hc/characteristic"
 	"github.com/brutella/hc/hap/endpoint"
 
 	"hcverif/ref"
@@ -31,16 +32,24 @@ type rbScenario struct {
 }
 
 type rbWorld struct {
-	tr    *Transport
-	admin ref.Identity
-	sw    *accessory.Switch
-	onIID uint64
+	tr       *Transport
+	admin    ref.Identity
+	sw       *accessory.Switch
+	onIID    uint64
+	floatIID uint64
 }
 
 func newRBWorld(seed int64, k int) (*rbWorld, error) {
 	w := &rbWorld{}
 	dir := mkTempDir("hcv-robust")
 	w.sw = accessory.NewSwitch(accessory.Info{Name: "Robust"})
+	// a float without declared bounds (like DigitalZoom), writable and evented
+	fl := characteristic.NewFloat("F10A7000-0000-1000-8000-0026BB765291")
+	fl.Format = characteristic.FormatFloat
+	fl.Perms = characteristic.PermsAll()
+	fl.SetValue(1.5)
+	w.sw.Switch.AddCharacteristic(fl.Characteristic)
+	w.sw.Accessory.UpdateIDs()
 	registerResource = true
 	tr, err := startHTTPServer(dir, "00102003", w.sw.Accessory)
 	if err != nil {
@@ -48,6 +57,7 @@ func newRBWorld(seed int64, k int) (*rbWorld, error) {
 	}
 	w.tr = tr
 	w.onIID = w.sw.Switch.On.ID
+	w.floatIID = fl.ID
 	w.admin = ref.NewIdentity("robust-admin", rndFunc(rngFor(seed, 15000+k)))
 	if err := tr.seedPairing(w.admin); err != nil {
 		return nil, err
@@ -360,6 +370,9 @@ func (w *rbWorld) rbJSONRequest(sc rbScenario, rng *rand.Rand, v int) (method, p
 		} else {
 			body = [][]byte{item(`{"aid":99999999999999999999,"iid":1}`), item(fmt.Sprintf(`{"aid":1,"iid":%d,"value":1e400}`, iid)), item(fmt.Sprintf(`{"aid":1,"iid":%d,"value":-99999999999999999999999}`, iid)), item(`{"aid":-1,"iid":-1,"value":1}`)}[v%4]
 		}
+	case "nonfinite_value":
+		x := []string{`"-1e999"`, `"1e999"`, `"NaN"`, `"-Inf"`, `"+Inf"`, `"Infinity"`, `"-Infinity"`, `"-1E+400"`, `"nan"`, `"-inf"`}[v%10]
+		body = item(fmt.Sprintf(`{"aid":1,"iid":%d,"value":%s}`, w.floatIID, x))
 	case "deep_nesting":
 		n := []int{100, 5000, 100000}[v%3]
 		body = []byte(`{"characteristics":` + strings.Repeat("[", n) + strings.Repeat("]", n) + `}`)
